@@ -166,6 +166,17 @@ impl AddressGenerator for MarkGen {
     }
 }
 
+struct MarkCk(u32);
+impl cw_multi_test::ChecksumGenerator for MarkCk {
+    fn checksum(&self, _creator: &Addr, _code_id: u64) -> cosmwasm_std::Checksum {
+        markck(self.0)
+    }
+}
+
+fn markck(id: u32) -> cosmwasm_std::Checksum {
+    cosmwasm_std::Checksum::generate(format!("markck-{}", id).as_bytes())
+}
+
 fn markgen_canonical(id: u32) -> CanonicalAddr {
     Sha256::digest(format!("markgen-{}", id).as_bytes()).to_vec().into()
 }
@@ -235,7 +246,14 @@ where
     let mut app: App<B, MockApi, MockStorage, C, WasmKeeper<Empty, Empty>, S, D, I, G, T> = b.build(|_router, _api, storage| {
         calls.set(calls.get() + 1);
         saw.set(storage.get(b"marker").and_then(|v| String::from_utf8(v).ok()).and_then(|s| s.parse().ok()));
+        // what an initialisation function may do: write a key twice, remove and re-create a key the
+        // supplied storage already held
+        storage.set(b"init", b"0");
         storage.set(b"init", b"1");
+        if let Some(m) = storage.get(b"marker") {
+            storage.remove(b"marker");
+            storage.set(b"marker", &m);
+        }
     });
     o.init_calls = calls.get();
     o.init_saw_marker = saw.get();
@@ -286,6 +304,18 @@ where
         Err(_) => Some(u32::MAX - 1),
     };
     o.exec.insert("wasm".into(), wasm_marker);
+    // the checksum generator supplied together with the address generator
+    let ck_marker = match app.wrap().query_wasm_code_info(code) {
+        Ok(info) => {
+            if wasm_marker.is_none() {
+                None // default keeper: default checksum, nothing supplied
+            } else {
+                (0..4096u32).find(|i| markck(*i) == info.checksum).or(Some(u32::MAX))
+            }
+        }
+        Err(_) => Some(u32::MAX - 1),
+    };
+    o.query.insert("wasm".into(), ck_marker);
     o.exec.insert("bank".into(), exec_marker(app.execute(sender.clone(), BankMsg::Send { to_address: other.to_string(), amount: vec![cosmwasm_std::coin(1, "x")] }.into())));
     o.exec.insert("custom".into(), exec_marker(app.execute(sender.clone(), CosmosMsg::Custom(Empty {}))));
     o.exec.insert("staking".into(), exec_marker(app.execute(sender.clone(), StakingMsg::Delegate { validator: "v".into(), amount: cosmwasm_std::coin(1, "TOKEN") }.into())));
@@ -333,7 +363,9 @@ macro_rules! go_impl {
                 Slot::Ibc => go(b.with_ibc(MIbc::new("ibc", id)), rest),
                 Slot::Gov => go(b.with_gov(MGov::new("gov", id)), rest),
                 Slot::Stargate => go(b.with_stargate(MStargate(id)), rest),
-                Slot::Wasm => go(b.with_wasm(WasmKeeper::new().with_address_generator(MarkGen(id))), rest),
+                // the keeper itself is assembled from two builder steps, in either order
+                Slot::Wasm if id % 2 == 0 => go(b.with_wasm(WasmKeeper::new().with_address_generator(MarkGen(id)).with_checksum_generator(MarkCk(id))), rest),
+                Slot::Wasm => go(b.with_wasm(WasmKeeper::new().with_checksum_generator(MarkCk(id)).with_address_generator(MarkGen(id))), rest),
                 Slot::Api => go(b.with_api(MockApi::default().with_prefix(api_prefix(id))), rest),
                 Slot::Storage => {
                     let mut st = MockStorage::new();
